@@ -434,6 +434,10 @@ class Doc:
         if t != "svg" or depth > 0:
             if "transform" in props:
                 m = mul(m, parse_transform(props["transform"]))
+        if t == "use":
+            # SVG 1.1 §5.6: the generated g carries `transform` with translate(x, y) appended, and the other attributes
+            # of the use (clip-path, opacity, ...) — so they act in the translated user space
+            m = mul(m, (1, 0, 0, 1, fnum(props.get("x"), 0.0), fnum(props.get("y"), 0.0)))
         op = min(max(fnum(props.get("opacity"), 1.0), 0.0), 1.0)
         # clip-path of this element, in its own user space
         cp = props.get("clip-path")
@@ -506,8 +510,7 @@ class Doc:
                 raise Unsupported("dangling use")
             if local(tgt.tag) in ("symbol", "svg"):
                 raise Unsupported("use of symbol/svg")
-            um = mul(m, (1, 0, 0, 1, fnum(props.get("x"), 0.0), fnum(props.get("y"), 0.0)))
-            kids = self.layers(tgt, um, c2, x, y, depth + 1)
+            kids = self.layers(tgt, m, c2, x, y, depth + 1)
             return [("group", op, kids)] if kids else []
         raise Unsupported("element <%s>" % t)
 
